@@ -21,7 +21,9 @@ RULE = ("seeded random YAML files (plus a fixed corpus) mixing plaintext scalars
         "plain / quoted-with-blanks / folded / literal layouts, double-quoted scalars padded with 0..40 blanks and line breaks, "
         "literal and folded blocks with an indentation indicator whose marker comes after empty lines and up to 40 extra "
         "blanks (also with the line break inside the marker), near-miss markers, values under a foreign key, plaintexts "
-        "with trailing blanks or looking encrypted; the real eyaml_rotate_keys.main() runs with --backup and "
+        "with trailing blanks or looking encrypted, plaintexts that BEGIN with blanks, a tab or empty lines (indented "
+        "snippets, padded passphrases; loss of leading white space has its own signature, apart from the known loss of "
+        "trailing white space); the real eyaml_rotate_keys.main() runs with --backup and "
         "harness/tools/fake_eyaml on ONE file, or on 2-3 files in one invocation whose secrets carry the same anchor names "
         "(every file judged by itself).  Direct check when the exit status is 0: every encrypted value of every file "
         "decrypts under the new key to its old plaintext and no longer under the old key, is still an encrypted value, "
@@ -29,7 +31,12 @@ RULE = ("seeded random YAML files (plus a fixed corpus) mixing plaintext scalars
         "stand-in was called once per distinct secret; a file without secrets is neither rewritten nor backed up.  The same "
         "clauses on successful runs repeated with the k-th encrypt / decrypt call of the stand-in misbehaving (prints "
         "nothing or only blanks with exit 0, exits 1) for every k, on string- and block-format secrets: a run that exits 0 "
-        "must have re-keyed everything; a non-zero status claims nothing.  Correspondence: document after the run "
+        "must have re-keyed everything; a non-zero status claims nothing.  Key-argument mixes: corpus files, multi-file groups "
+        "and a sample of the random files run again with the new pair = the old pair, only --newpublickey = --oldpublickey, "
+        "only --newprivatekey = --oldprivatekey (the stand-in is key-pair sensitive: a value encrypted with public key <id> "
+        "decrypts only under a pair whose private AND public key have that id): whenever such a run exits 0 every secret must "
+        "decrypt under the NEW pair as given and not under the old pair (a refusal claims nothing; these runs have no model "
+        "counterpart and are judged by the direct clauses only).  Correspondence: document after the run "
         "(secrets compared without blanks/line breaks), exit status, written/not written, numbers of decrypt and encrypt "
         "calls equal the Lean model's, file by file (of a run that exits non-zero only the status is compared).  "
         "is_eyaml_value is compared with the model's isEyaml and the rule on every string of length "
@@ -41,6 +48,12 @@ FAKE_EYAML = os.path.join(core.HERE, "tools", "fake_eyaml")
 SCRATCH_ROOT = os.path.join(core.VERIF, "out", "scratch")
 KEYS = {"pub1": "FAKE-PUBLIC k1\n", "priv1": "FAKE-PRIVATE k1\n", "pub2": "FAKE-PUBLIC k2\n", "priv2": "FAKE-PRIVATE k2\n"}
 OLD, NEW = "k1", "k2"
+# key-argument mixes: name -> (file given as --newprivatekey, file given as --newpublickey); the old pair is priv1/pub1
+KEY_MIXES = {"all-different": ("priv2", "pub2"), "same-pair": ("priv1", "pub1"), "same-public": ("priv2", "pub1"),
+             "same-private": ("priv1", "pub2")}
+MIX_SIG = {"same-pair": "new-pair-is-the-old-pair", "same-public": "new-public-key-is-the-old-one",
+           "same-private": "new-private-key-is-the-old-one"}
+KEY_ID = {"priv1": "k1", "pub1": "k1", "priv2": "k2", "pub2": "k2"}
 
 
 # --------------------------------------------------------------------------- reference cipher
@@ -65,6 +78,18 @@ def dec(kid, cipher):
         return None
 
 
+def dec_new(mix, cipher):
+    """plaintext under the NEW pair of a key-argument mix: a pair whose halves do not belong together decrypts nothing"""
+    priv, pub = KEY_MIXES[mix or "all-different"]
+    if KEY_ID[priv] != KEY_ID[pub]:
+        return None
+    return dec(KEY_ID[priv], cipher)
+
+
+def lead(s):
+    return s[:len(s) - len(s.lstrip())]
+
+
 def is_marker(s):
     """the property's rule, written independently of the code under test"""
     return isinstance(s, str) and "".join(ch for ch in s if ch not in " \n")[:4] == "ENC["
@@ -74,7 +99,11 @@ def is_marker(s):
 
 PLAINTEXTS = ["hello", "s3cret!", "p@ss w0rd", "multi word secret value that is fairly long so that blocks wrap around",
               "x", "a:b", "#not-a-comment", "tab\there", "0", "true", "line1\nline2"]
-ODD_PLAINTEXTS = ["trailing blank ", "trailing newline\n", enc("k1", "inner"), "   "]
+# plaintexts that begin with white space (no trailing white space: that is the known C19-F1)
+LEADING_PLAINTEXTS = ["  indented", "\tleading tab", "\nblank first line", "    key: value\n    other: 2", " x",
+                      "\n\n  two empty lines first", "   padded passphrase", "\t\tif x:\n\t\t\treturn 1", " \t mixed lead"]
+PLAINTEXTS += LEADING_PLAINTEXTS[:5]
+ODD_PLAINTEXTS = ["trailing blank ", "trailing newline\n", enc("k1", "inner"), "   ", "  padded both ends  ", "\nlines around\n"]
 NEAR = ["ENC", "enc[FAKE,k1,00]", "XENC[FAKE,k1,00]", "ENC(FAKE)", "E-N-C-[", "[ENC[", "plain text", ""]
 BROKEN = ["ENC[x", "E N C [ garbage", "ENC[FAKE,k9,6869]", "ENC[PKCS7,Zm9v]", "ENC[FAKE,k1,zz]"]
 
@@ -261,6 +290,11 @@ CORPUS = [
     "a: |\n  %s\n  %s\n" % (enc(OLD, "literal block")[:15], enc(OLD, "literal block")[15:]),
     "",
 ]
+# secrets whose plaintext begins with white space, in string and block layouts, bare and anchored
+CORPUS += ["snippets:\n" + "".join("  s%d: %s%s\n" % (i, "&l%d " % i if i % 3 == 2 else "", enc(OLD, pt))
+                                   for i, pt in enumerate(LEADING_PLAINTEXTS)) + "  again: *l2\nn: 1\n"]
+CORPUS += ["f: >\n  %s\n  %s\nl:\n  - %s\n" % (enc(OLD, pt)[:18], enc(OLD, pt)[18:], enc(OLD, pt)) for pt in LEADING_PLAINTEXTS[:4]]
+CORPUS += ["a: %s\n" % enc(OLD, pt) for pt in ODD_PLAINTEXTS[4:]]
 
 
 def padded_corpus(tier):
@@ -313,7 +347,16 @@ def gen_cases(chk, n, n_multi):
                 root = ("map", None, [("k0", root)])
             texts.append(doc_text(root))
         cases.append({"texts": texts, "src": "multi-random"})
-    return cases
+    # key-argument mixes: every corpus file under every mix, the multi-file groups and a sample of the random files under one
+    mixes = [m for m in KEY_MIXES if m != "all-different"]
+    extra = []
+    for c in cases:
+        if c["src"] == "corpus":
+            extra += [dict(c, src="keys", keys=m) for m in mixes]
+    pool = [c for c in cases if c["src"] in ("multi-corpus", "random", "multi-random")]
+    for i, c in enumerate(pool[:8] + rng.sample(pool[8:], min(len(pool) - 8, max(60, n // 8)))):
+        extra.append(dict(c, src="keys", keys=mixes[i % len(mixes)]))
+    return cases + extra
 
 
 def texts_of(case):
@@ -325,6 +368,8 @@ def witness(case):
     w = {"texts": case["texts"]} if "texts" in case else {"text": case["text"]}
     if case.get("fault"):
         w["fault"] = case["fault"]
+    if case.get("keys"):
+        w["keys"] = case["keys"]
     return w
 
 
@@ -363,7 +408,7 @@ def share_classes(root):
     return {a: len(ids) for a, ids in seen.items()}
 
 
-def impl_run(texts, backup=True, fault=None):
+def impl_run(texts, backup=True, fault=None, keys=None):
     """Run eyaml_rotate_keys.main() ONCE on files holding `texts`; `fault` = "<encrypt|decrypt>:<k>:<mode>" makes
     the k-th such call of the stand-in misbehave (see harness/tools/fake_eyaml)."""
     from yamlpath.commands import eyaml_rotate_keys
@@ -394,11 +439,12 @@ def impl_run(texts, backup=True, fault=None):
         if fault:
             os.environ["YPV_EYAML_FAULT"] = fault
         argv = sys.argv
-        sys.argv = ["eyaml-rotate-keys"] + (["-b"] if backup else []) + ["-q", "-x", FAKE_EYAML, "-r", os.path.join(d, "priv2"),
-                                                                      "-u", os.path.join(d, "pub2"), "-i", os.path.join(d, "priv1"),
+        newpriv, newpub = KEY_MIXES[keys or "all-different"]
+        sys.argv = ["eyaml-rotate-keys"] + (["-b"] if backup else []) + ["-q", "-x", FAKE_EYAML, "-r", os.path.join(d, newpriv),
+                                                                      "-u", os.path.join(d, newpub), "-i", os.path.join(d, "priv1"),
                                                                       "-c", os.path.join(d, "pub1")] + paths
         old = signal.signal(signal.SIGALRM, _alarm)
-        signal.setitimer(signal.ITIMER_REAL, 60)
+        signal.setitimer(signal.ITIMER_REAL, 600)   # wall clock (the run waits for eyaml subprocesses); generous: a loaded machine must not look like a hang
         devnull = open(os.devnull, "w")
         so, se = sys.stdout, sys.stderr
         sys.stdout = sys.stderr = devnull
@@ -409,7 +455,7 @@ def impl_run(texts, backup=True, fault=None):
             except SystemExit as e:
                 out["rc"] = e.code if isinstance(e.code, int) else (0 if e.code is None else 1)
             except Timeout:
-                out["rc"] = "timeout"
+                raise core.Infra("eyaml-rotate-keys did not finish within 600 s (machine overloaded?)")
             except Exception as e:  # noqa
                 out["rc"] = "crash:%s@%s" % (type(e).__name__, core.crash_site(e))
         finally:
@@ -530,10 +576,11 @@ def secrets_of(before):
     return [(a, l) for a, l in leaves(before) if l.get("k") == "str" and is_marker(l["v"])]
 
 
-def direct_check(f, rc):
-    """The property itself on ONE real file `f` of a run that ended with status `rc` (judged when 0).
-    Returns [(signature, what)]."""
+def direct_check(f, rc, mix=None):
+    """The property itself on ONE real file `f` of a run that ended with status `rc` (judged when 0); `mix` names
+    the key arguments of the run (KEY_MIXES).  Returns [(signature, what)]."""
     bad = []
+    mixed = mix not in (None, "all-different")
     counts = anchor_counts(f["before"])
     before = drop_single_container_anchors(f["before"], counts)
     after = drop_single_container_anchors(f["after"], counts) if f.get("after") is not None else None
@@ -570,18 +617,24 @@ def direct_check(f, rc):
         if p_old is None:
             bad.append(("success-with-undecryptable", "exit 0 although %r does not decrypt under the old key" % (addr,)))
             continue
-        p_new = dec(NEW, l2["v"]) if l2 and l2.get("k") == "str" else None
+        p_new = dec_new(mix, l2["v"]) if l2 and l2.get("k") == "str" else None
         still_old = dec(OLD, l2["v"]) if l2 and l2.get("k") == "str" else None
         if p_new != p_old or still_old is not None:
             if root_scalar:
                 sig = "root-scalar-secret-not-rotated"
+            elif mixed:
+                sig = "secret-not-rekeyed:" + MIX_SIG[mix]
+            elif p_new is not None and still_old is None and lead(p_new) != lead(p_old) and p_new.lstrip() == p_old.lstrip()[:len(p_new.lstrip())]:
+                # re-keyed, but the plaintext no longer begins with the white space it began with
+                sig = "plaintext-leading-whitespace-lost"
             elif p_old != p_old.rstrip():
                 sig = "plaintext-trailing-whitespace-lost"
             elif is_marker(p_old):
                 sig = "plaintext-looking-encrypted-stored-raw"
             else:
                 sig = "secret-not-rekeyed"
-            bad.append((sig, "value at %r: old plaintext %r, under the new key %r, under the old key %r" % (
+            bad.append((sig, "%svalue at %r: old plaintext %r, under the new key %r, under the old key %r" % (
+                "exit 0 with key arguments '%s' (-r %s -u %s -i priv1 -c pub1): " % ((mix,) + KEY_MIXES[mix]) if mixed else "",
                 addr, p_old, p_new, still_old)))
     for a, n in (f.get("after_share") or {}).items():
         if n != 1 and (f.get("before_share") or {}).get(a) == 1:
@@ -625,7 +678,7 @@ def job(cases):
     os.makedirs(SCRATCH_ROOT, exist_ok=True)
     if len(cases) > 1:
         quiet_process()
-    res = [impl_run(texts_of(c), fault=c.get("fault")) for c in cases]
+    res = [impl_run(texts_of(c), fault=c.get("fault"), keys=c.get("keys")) for c in cases]
     reqs, idx = [], []
     for i, r in enumerate(res):
         for f in r.get("files", ()):
@@ -641,7 +694,7 @@ def fault_cases(cases, results, tier, rng):
     """Second stage: successful runs repeated with the k-th encrypt / decrypt call of the stand-in misbehaving, for
     EVERY k of the run (string- and block-format secrets, anchored ones, several files)."""
     pool = [(c, r) for c, r in zip(cases, results)
-            if r.get("rc") == 0 and not c.get("fault") and 1 <= r.get("encs", 0) <= 6 and r["encs"] == r["decs"]]
+            if r.get("rc") == 0 and not c.get("fault") and not c.get("keys") and 1 <= r.get("encs", 0) <= 6 and r["encs"] == r["decs"]]
     fixed = [cr for cr in pool if cr[0]["src"] in ("corpus", "multi-corpus")]
     rest = [cr for cr in pool if cr[0]["src"] not in ("corpus", "multi-corpus")]
     blocky = [cr for cr in rest if "block" in cr[1]["enc_formats"]]
@@ -736,10 +789,16 @@ def judge(chk, case, r):
             fm = case.get("formats") or []
             chk.count("fault:encrypt-of-%s-secret" % (fm[k - 1] if k <= len(fm) else "?"))
     for i, f in enumerate(files):
-        for sig, what in direct_check(f, r["rc"]):
+        for sig, what in direct_check(f, r["rc"], case.get("keys")):
             where = ("file %d of %d: " % (i + 1, nf) if nf > 1 else "") + (
                 "stand-in fault %s: " % case["fault"] if faulted else "")
             chk.violation(sig, where + what, wit)
+    if case.get("keys") and case["keys"] != "all-different":
+        # a key-argument mix: the direct clauses above are all there is (the model has one old and one new key)
+        chk.count("keys:%s:%s" % (case["keys"], "exit0" if r["rc"] == 0 else "refused"))
+        if r["rc"] != 0 and any(f["rewritten"] or f["bak"] is not None for f in files):
+            chk.count("keys:refused-run-wrote-files")
+        return
     if faulted:
         # a run in which the stand-in misbehaved: only the property's own clauses (above) are judged - when it
         # exits 0 every secret must have been re-keyed; a non-zero status claims nothing (the model has no faults)
